@@ -57,7 +57,7 @@ pub enum Policy {
     AlwaysOne,
     /// every transfer is first interrupted once, then served fully
     InterruptThenFull,
-    /// alternate: one byte, interrupted, half, full, ...
+    /// cycle through the answers starting with the short ones: 1 byte, half, len-1, interrupted, full, ...
     Alternate,
     /// every transfer is interrupted once and then moves one byte
     InterruptThenOne,
@@ -206,8 +206,10 @@ impl Ctl {
                 }
             }
             Policy::Alternate => {
+                // 1 byte, half, len-1, interrupted, full, 1 byte, ... (the very first transfer is
+                // already a short one)
                 self.toggle += 1;
-                ((self.toggle - 1) % n as u64) as u8
+                (self.toggle % n as u64) as u8
             }
         };
         if choice != 0 {
